@@ -644,7 +644,7 @@ def check_pair_disjoint(res, case):
     cx = Ctx(res, case)
     n = M.overlap_count(a, b, S)
     imask = M.intersection_mask(a, b, S)
-    feats0 = {'empty': empties(a, b), 'relation_a': M.relation(a), 'relation_b': M.relation(b),
+    feats0 = {'empty': empties(a, b), 'touching_within_a_set': 'touching' in (M.relation(a), M.relation(b)),
               'sorted_inputs': M.sorted_on_start(a) and M.sorted_on_start(b)}
     from bionumpy.arithmetics import count_overlap, intersect
     feats = dict(feats0, op='count_overlap')
